@@ -201,7 +201,7 @@ impl Property for C14 {
         vec![
             "hook: sentinel-core compiled against verif_std (nightly, --cfg sentinel_verif_sched); interleavings at the granularity of std sync operations, sequentially consistent".into(),
             "code of other crates (lazy_static, lru) is atomic with respect to the scheduler; all lazy statics are forced before the scheduler is installed".into(),
-            "std RwLock writer preference is not modelled (under-approximation)".into(),
+            "std RwLock writer preference is modelled as: a new read request waits while the lock is held and a writer is parked on it (so a recursive read behind a parked writer is a deadlock); once the lock is free readers and writers race".into(),
         ]
     }
     fn describe(&self, bytes: &[u8]) -> Option<serde_json::Value> {
